@@ -1,6 +1,7 @@
 open BinNums
 open BinPosDef
 open Datatypes
+open Nat
 
 module Pos :
  sig
@@ -34,6 +35,12 @@ module Pos :
   val compare : positive -> positive -> comparison
 
   val eqb : positive -> positive -> bool
+
+  val iter_op : ('a1 -> 'a1 -> 'a1) -> positive -> 'a1 -> 'a1
+
+  val to_nat : positive -> nat
+
+  val of_succ_nat : nat -> positive
 
   val eq_dec : positive -> positive -> bool
  end
